@@ -66,6 +66,9 @@ def main():
     cases = 0
     # targeted strings beyond the length bound: case variants / neighbours of the registered function name
     extra = ["Sgn(x)", "SGN(4)", "sGn", "sgn(x)", "sgnx", "xsgn", "sgnsgn(2)", "sgn sgn", "2SGN(4)+1", "s g n", "4x +\r\n2y", " \t\n ", "12.5.3", "..", "x–y", "[x]"]
+    # long runs (a window or buffer size in the tokenizer would cut them)
+    extra += ["1" * 33, "7" * 100 + ".5", "1" * 32 + ".5", "a" * 32 + "sgn", "x" * 70, "sgn" * 20, " " * 50 + "x", "1" * 31 + " " + "2" * 40, "(" * 64 + "x" + ")" * 64, "12.5" * 30,
+              "x" * 31 + "sgn(1)", "4" + "x" * 200 + "+" + "1" * 200]
     for s in extra:
         for keep in (False, True):
             cases += 1
